@@ -57,6 +57,9 @@ def write(path, text, encoding='utf-8'):
 def gen_case(rng, i=None, shard=0):
     act, ref, muts = T.gen_pair(rng)
     opts, subset = T.gen_opts(rng, i if (i is not None and i < 128 and shard == 0) else None)
+    if any(m.startswith('dup-') for m in muts) and rng.random() < 0.8:
+        opts['max_permutation_cases'] = rng.choice([3, 4, 6])
+        subset |= 64
     entry = rng.choice(['check_strings', 'check_strings', 'string', 'file', 'files'])
     case = {'opts': opts, 'subset': subset, 'entry': entry, 'muts': muts}
     if entry == 'check_strings':
